@@ -32,6 +32,9 @@ CONSTANTS
 
 None == [kind |-> "none", t |-> 0, fs |-> <<>>, code |-> 0]
 
+\* clauses that describe behaviour outside the quantifier of a listed property: reported, never a violation
+ObsClauses == {"OBS.TxBoundConcurrent"}
+
 NewReq == [st |-> "new", sends |-> 0, first |-> 0, last |-> 0, lastEv |-> 0, net |-> FALSE,
            wait |-> 0, conn |-> FALSE, parts |-> <<>>, hasBuf |-> FALSE, buf |-> NoFrame, bufT |-> 0,
            dirty |-> FALSE, expect |-> None, trs |-> {}, spacingBad |-> FALSE]
@@ -74,7 +77,8 @@ OnSend(mm, e, meta) ==
                            !.parts = <<>>, !.hasBuf = FALSE, !.buf = NoFrame, !.dirty = FALSE, !.expect = None,
                            !.trs = q.trs \cup {e.tr},
                            !.spacingBad = q.spacingBad \/ (~q.net /\ q.sends > 0 /\ e.t # q.first + q.sends * meta.T)]
-           v == (IF q.sends + 1 > meta.retries + 1 THEN {"C04.TxBound"} ELSE {})
+           v == (IF q.sends + 1 > meta.retries + 1
+                 THEN IF single THEN {"C04.TxBound"} ELSE {"OBS.TxBoundConcurrent"} ELSE {})
                 \cup (IF meta.assume /\ \E r2 \in Active(mm) \ {r} : mm.rq[r2].sends > 0 /\ mm.rq[r2].wait > e.t
                       THEN {"C06.Mutex"} ELSE {})
                 \cup (IF tx # -1 /\ (tx = 0 \/ tx = mm.lastTx) THEN {"C03.TxId"} ELSE {})
@@ -150,10 +154,10 @@ OnRet(mm, e, meta) ==
               ELSE IF ~ok /\ ~e.fam THEN {"C09.Family"} ELSE {}
         v2 == IF single /\ e.t > q.lastEv + (IF q.conn THEN meta.CT ELSE meta.T) THEN {"C04.Deadline"} ELSE {}
         v3 == IF q.expect.kind = "ok"
-              THEN IF ok /\ e.t = q.expect.t /\ IsData(e.f, q.expect.fs) THEN {}
+              THEN IF ok /\ (single => e.t = q.expect.t) /\ IsData(e.f, q.expect.fs) THEN {}
                    ELSE IF Len(q.expect.fs) = 2 THEN {"C07.Reassembly"} ELSE {"C02.AcceptedDelivered"}
               ELSE IF q.expect.kind = "rej"
-              THEN IF e.out = "rejected" /\ e.t = q.expect.t /\ ReasonOk(q.expect.code, e.msg) THEN {}
+              THEN IF e.out = "rejected" /\ (single => e.t = q.expect.t) /\ ReasonOk(q.expect.code, e.msg) THEN {}
                    ELSE {"C08.RejectImmediate"}
               ELSE {}
         v4 == IF ok THEN
